@@ -29,6 +29,7 @@ type verifSess struct {
 	s   *Server
 	cs  *connState
 	tab []*verifFidM // reference fid table
+	lastFid fid      // first fid named by the last request of verifStep
 }
 
 func (x *verifSess) get(f fid) *verifFidM {
@@ -143,11 +144,18 @@ func verifBuildState(k int) *verifSess {
 		fs.walkMode = ModeRegular
 		x.must(&twalk{fid: 4, newFID: 6, Names: []string{"f"}})
 		x.bind(&verifFidM{fid: 6, kind: verifKFile, node: x.lastNode()})
+	case 17:
+		// a pending attribute write that is complete: its Tclunk reaches the backend (SetXattr)
+		walk(3, "f", ModeRegular, verifKFile)
+		x.must(&txattrcreate{fid: 3, Name: "user.a", AttrSize: 1})
+		x.must(&twrite{fid: 3, Offset: 0, Data: []byte{9}})
+		m := x.get(3)
+		m.xattr, m.xsize, m.xwritten = 2, 1, 1
 	}
 	return x
 }
 
-const verifNStates = 17
+const verifNStates = 18
 
 // errno constants (Linux)
 const (
@@ -174,6 +182,7 @@ func (v *verifVerdict) add(e uint32) { v.must = append(v.must, e) }
 func verifStep(x *verifSess, checkModel bool) (string, message) {
 	fs := x.fs
 	f1 := fid(verifNondetU32())
+	x.lastFid = f1
 	nameOf := func() string {
 		switch verifChoice(4) {
 		case 0:
